@@ -445,6 +445,7 @@ pub fn run_scenario(sc: &Value, ex: &mut Exec) -> usize {
     }
 
     let mut run = Run::none();
+    let mut shut_helper: Option<std::sync::mpsc::Receiver<String>> = None;
     let mut next_id: u64 = sc.get("id0").and_then(|v| v.as_u64()).unwrap_or(0);
     let mut old_fams: Vec<(PathBuf, Cfg)> = Vec::new();
     let mut moved: Vec<String> = Vec::new();
@@ -454,6 +455,9 @@ pub fn run_scenario(sc: &Value, ex: &mut Exec) -> usize {
     for st in steps {
         let op = st["op"].as_str().unwrap_or("?").to_string();
         let mut ev = json!({"ev": op});
+        if let Some(q) = st.get("q") {
+            ev["q"] = q.clone(); // the action of the specification this step stands for (conform mode)
+        }
         let mut pending_inner: Vec<(u64, usize)> = Vec::new();
         let dir = root.join(&cfg.subdir);
         let mut sync_point = false;
@@ -637,6 +641,74 @@ pub fn run_scenario(sc: &Value, ex: &mut Exec) -> usize {
                 match r {
                     Ok(()) => "ok".into(),
                     Err(e) => format!("panic:{}", panic_msg(e)),
+                }
+            }
+            "HoldCleaner" => {
+                // FlwCleanQ.tla on the code: the background cleanup thread is held in front of every recv, at the
+                // start of every run and in front of every file-system effect; "CGo" lets it take one step
+                hh.sched_reset_fs(&["flexi_logger-fs-cleanup"]);
+                "ok".into()
+            }
+            "CGo" => {
+                sync_point = true;
+                let id = "flexi_logger-fs-cleanup";
+                if hh.wait_parked(id, std::time::Duration::from_millis(5000)).is_none() {
+                    "blocked:not-parked".into()
+                } else {
+                    let seen = hh.park_count(id);
+                    ev["from"] = json!(hh.sched.lock().unwrap().parked.get(id).cloned().unwrap_or_default());
+                    hh.release(id, 1);
+                    if st.get("exit").and_then(|v| v.as_bool()).unwrap_or(false) {
+                        // the thread receives Die and ends; the pending shutdown() joins it
+                        ev["at"] = json!("exit");
+                        "ok".into()
+                    } else {
+                        match hh.wait_new_park(id, seen, std::time::Duration::from_millis(5000)) {
+                            Some(pt) => {
+                                ev["at"] = json!(pt);
+                                "ok".into()
+                            }
+                            None => "blocked:no-park".into(),
+                        }
+                    }
+                }
+            }
+            "ShutdownBegin" => {
+                // shutdown() in a helper thread: it sends Die to the cleanup thread and joins it
+                let (tx, rx) = std::sync::mpsc::channel::<String>();
+                if let Some(hd) = &run.handle {
+                    let hd = hd.clone();
+                    std::thread::spawn(move || {
+                        let r = catch_unwind(AssertUnwindSafe(|| hd.shutdown()));
+                        tx.send(if r.is_ok() { "ok".into() } else { "panic:shutdown".into() }).ok();
+                        drop(hd);
+                    });
+                } else if let Some(a) = &run.arc {
+                    let a = a.clone();
+                    std::thread::spawn(move || {
+                        let r = catch_unwind(AssertUnwindSafe(|| a.shutdown()));
+                        tx.send(if r.is_ok() { "ok".into() } else { "panic:shutdown".into() }).ok();
+                    });
+                }
+                shut_helper = Some(rx);
+                // (give the helper the time to send Die; the cleanup thread is parked, nothing else moves)
+                std::thread::sleep(std::time::Duration::from_millis(if st.get("nowait").is_some() { 0 } else { 15 }));
+                "ok".into()
+            }
+            "ShutdownEnd" => {
+                sync_point = true;
+                let early = st.get("early").and_then(|v| v.as_bool()).unwrap_or(false);
+                match shut_helper.take() {
+                    Some(rx) => match rx.recv_timeout(std::time::Duration::from_millis(if early { 300 } else { 5000 })) {
+                        Ok(r) => r,
+                        Err(_) => {
+                            // shutdown() has not returned: the cleanup thread is still held; let everything run
+                            hh.sched_off();
+                            let _ = rx.recv_timeout(std::time::Duration::from_millis(5000));
+                            "blocked:shutdown".into()
+                        }
+                    },
+                    None => "err:no-shutdown-pending".into(),
                 }
             }
             "HoldWriter" => {
@@ -1088,7 +1160,7 @@ pub fn run_scenario(sc: &Value, ex: &mut Exec) -> usize {
             || sync_point
             || matches!(
                 op.as_str(),
-                "Start" | "Trigger" | "Reopen" | "Reset" | "Elf" | "ExtRename" | "ExtRemove"
+                "Start" | "Trigger" | "Reopen" | "Reset" | "Elf" | "ExtRename" | "ExtRemove" | "ShutdownBegin"
             );
         ev["o"] = json!(observing);
         if observing {
